@@ -205,6 +205,20 @@ func consumeReal(kind string, k key.Key, data, ext []byte, seen *[][]byte) (payl
 	}
 }
 
+// tamperShape: a message whose outer array has another number of members is refused whatever the members are
+func tamperShape(c *ctx, kind string, k key.Key, d, ext []byte, line, what string) {
+	var cerr error
+	var seen [][]byte
+	p, pm := catch(func() { _, _, cerr = consumeReal(kind, k, d, ext, &seen) })
+	c.eval()
+	c.count(fmt.Sprintf("real tamper %s accepted=%v", what, cerr == nil && !p))
+	if p {
+		c.fail(failure{Op: "real-tamper", What: "panic while consuming a message of another array shape", Input: line + "|" + what + short(fmt.Sprintf("|%x", d)), Observed: pm, Expected: "error", Case: line})
+	} else if cerr == nil {
+		c.fail(failure{Op: "real-tamper", What: "a message whose outer array has " + what + " is accepted", Input: line + "|" + what + short(fmt.Sprintf("|%x", d)), Observed: "accepted", Expected: "an error (wrong array arity)", Case: line, Theorem: "C08_wrong_arity_refused"})
+	}
+}
+
 func streamMsgReal(c *ctx) {
 	var algs []int
 	for _, a := range allAlgs {
@@ -269,6 +283,10 @@ func streamMsgReal(c *ctx) {
 				}
 				if round == 1 && (alg == 12 || alg == 13 || alg == 32 || alg == 33 || alg <= 3 || alg == 24) && alg > 0 {
 					plen = pick(c.r, []int{65535, 65536, 70000})
+				}
+				if round == 1 && ((alg >= 4 && alg <= 7) || alg == 14 || alg == 15 || alg == 25 || alg == 26) {
+					// MAC structures of several kilobytes (chunked implementations chain across their buffer boundaries)
+					plen = pick(c.r, []int{8200, 9000, 12345, 20000})
 				}
 				payload := c.r.bytes(plen)
 				ext, _ := genExt(c)
@@ -473,6 +491,13 @@ func streamMsgReal(c *ctx) {
 							}
 						}
 					}
+				}
+				// a well-formed array with a member more or less
+				if pe, ok := topElems(data); ok {
+					for _, extra := range [][]byte{{0xf6}, {0x80}, {0x40}} {
+						tamperShape(c, kind, k, joinElems(append(append([]cbor.RawMessage{}, pe...), extra)), ext, line, "one-member-more")
+					}
+					tamperShape(c, kind, k, joinElems(pe[:len(pe)-1]), ext, line, "one-member-less")
 				}
 				tamper(data[:len(data)-1], ext, k, "truncate")
 				tamper(append(append([]byte{}, data...), 0), ext, k, "extend")
